@@ -16,3 +16,5 @@ def run(ctx):
         g72x.run(ctx, "C05", 120 if q else 1200)
         from .. import gsm
         gsm.run(ctx, "C05", 80 if q else 800)
+        from .. import adpcmenc       # IMA / MS ADPCM write contract: counts, frames after re-open, refused seeks leave no trace
+        adpcmenc.run(ctx, "C05", 100 if q else 1000)
